@@ -280,6 +280,17 @@ def run_invalid(task, acc):
                 elif sp.buffer != nat('pend'):
                     bad = 'pending text changed to %r' % (sp.buffer,)
                 else:
+                    # a second attempt with the same object on the same spawn is rejected like the first
+                    try:
+                        r2 = call(sp)
+                        bad = 'the same call made again was accepted (returned %r, before=%r)' % (r2, sp.before)
+                    except TypeError:
+                        if sp.buffer != nat('pend'):
+                            bad = 'second attempt: pending text changed to %r' % (sp.buffer,)
+                    except Exception as e:
+                        bad = 'the same call made again raised %r instead of TypeError' % (e,)
+                    acc.flags['invalid_call_repeated'] += 1
+                if bad is None:
                     # the pending text and the unread stream are still all there
                     try:
                         sp.expect(nat('y'))
